@@ -163,3 +163,46 @@ def evaluate(node, env):
         else:
             raise CannotEvaluate("target")
     return ev(node, env)
+
+
+class _Return(Exception):
+    def __init__(self, value):
+        self.value = value
+
+
+def run_function(fn: ast.FunctionDef, env):
+    """Interprets a small function body made of assignments to names, if/elif/else, return, pass and docstrings on the witness
+    environment `env` (parameters already bound).  Anything else raises CannotEvaluate.  Returns the returned value (None without return)."""
+    env = dict(env)
+
+    def block(stmts):
+        for st in stmts:
+            if isinstance(st, ast.Expr) and isinstance(st.value, ast.Constant):
+                continue
+            if isinstance(st, ast.Pass):
+                continue
+            if isinstance(st, ast.Return):
+                raise _Return(evaluate(st.value, env) if st.value is not None else None)
+            if isinstance(st, ast.Assign) and len(st.targets) == 1:
+                v = evaluate(st.value, env)
+                t = st.targets[0]
+                if isinstance(t, ast.Name):
+                    env[t.id] = v
+                    continue
+                if isinstance(t, (ast.Tuple, ast.List)) and all(isinstance(e, ast.Name) for e in t.elts):
+                    v = list(v)
+                    if len(v) != len(t.elts):
+                        raise CannotEvaluate("unpack")
+                    for e, x in zip(t.elts, v):
+                        env[e.id] = x
+                    continue
+                raise CannotEvaluate("assignment target")
+            if isinstance(st, ast.If):
+                block(st.body if evaluate(st.test, env) else st.orelse)
+                continue
+            raise CannotEvaluate(f"statement {type(st).__name__}")
+    try:
+        block(fn.body)
+    except _Return as r:
+        return r.value
+    return None
